@@ -44,7 +44,7 @@ Universe(tier) ==
   \cup { [h |-> h, split |-> FALSE, decoy |-> FALSE, aliased |-> FALSE, attrshadow |-> TRUE]
          : h \in { x \in Hier3 : ~x[1].pub /\ x[1].ms # {} /\ x[3].pub /\ x[3].ms \cap x[1].ms # {} /\ 1 \in AncIdx(x, 3, 3) } }
   \* viamodule: class 1 is a generic class of another module; the classes that derive from it name it through the module and subscript
-  \* it (class X(inhb.C1[int])) - another spelling of the same base class
+  \* it (class X(inha_base.C1[int])) - another spelling of the same base class
   \cup { [h |-> h, split |-> TRUE, decoy |-> FALSE, aliased |-> FALSE, viamodule |-> TRUE]
          : h \in { x \in Hier3 : ~x[1].pub /\ x[1].ms # {} /\ x[3].pub /\ 1 \in AncIdx(x, 3, 3) /\ (tier # "quick" \/ x[2].ms = {}) } }
   \* abstract: every public class that has bases also lists abc.ABC (first or last in its base list): a class of another library that
